@@ -3,7 +3,8 @@ import TPV.Model.UserFun
 open TPV TPV.Proto TPV.UserFun
 
 /-! line protocol of C13:  `run <nops> <op>…` / `runold <nops> <op>…`  →  `<out> # <digest> ; …`
-    ops: nd <dict> | wf fn <names> <dflts> | wc fn | we fn <names> <udict|-1> | rw r | ca r <dict> | cv r <dict> <lens> |
+    ops: nd <dict> | wf fn <names> <dflts> | wd fn <names> <dflts> <names of __wrapped__> <dflts of __wrapped__> |
+         wk fn <names> <dflts> <kw-only names> <kw-only defaults dict> | wc fn | we fn <names> <udict|-1> | rw r | ca r <dict> | cv r <dict> <lens> |
          pe r <dict> | sd r <dict> | rd r <names> | dc r        (lists are length-prefixed)
     `align <names> <dflts>`, `call <names> <defaults-dict> <env-dict>` evaluate single definitions. -/
 
@@ -11,28 +12,39 @@ def pDict : P Dict := many (do let k ← next; let v ← int; pure (k, v))
 def pNames : P (List String) := many next
 
 /-- user dicts are addressed by their ordinal; the driver maps ordinals to heap cells -/
-def pOp (ud : List Nat) : P (Option Op) := do
+def pOp (ud : List Nat) : P (Option Op × Option Callable) := do
   let t ← next
   match t with
-  | "nd" => do let d ← pDict; pure (some (.newDict d))
-  | "wf" => do let fn ← nat; let ns ← pNames; let ds ← many int; pure (some (.wrapFun fn ns ds))
-  | "wc" => do let fn ← nat; pure (some (.wrapConst fn))
+  | "nd" => do let d ← pDict; pure (some (.newDict d), none)
+  | "wf" => do
+    let fn ← nat; let ns ← pNames; let ds ← many int
+    pure (some (.wrapFun fn ns ds), some { fn := fn, names := ns, dflts := ds, wrapped := none })
+  | "wk" => do
+    -- keyword-only parameters: positional names/defaults, then the kw-only names and their defaults
+    let fn ← nat; let ns ← pNames; let ds ← many int; let ks ← pNames; let kd ← pDict
+    pure (some (.wrapFunKw fn ns ds ks kd), some { fn := fn, names := ns, dflts := ds, wrapped := none, kwnames := ks, kwdflts := kd })
+  | "wd" => do
+    -- a function decorated with functools.wraps: own signature, then the signature of __wrapped__
+    let fn ← nat; let ns ← pNames; let ds ← many int; let ins ← pNames; let ids ← many int
+    let c : Callable := { fn := fn, names := ns, dflts := ds, wrapped := some (ins, ids) }
+    pure (some (.wrapFun fn c.inspected.1 c.inspected.2), some c)
+  | "wc" => do let fn ← nat; pure (some (.wrapConst fn), none)
   | "we" => do
     let fn ← nat; let ns ← pNames; let c ← int
-    if c < 0 then pure (some (.wrapExplicit fn ns none))
+    if c < 0 then pure (some (.wrapExplicit fn ns none), some { fn := fn, names := ns, dflts := [], wrapped := none })
     else match ud[c.toNat]? with
-      | some cell => pure (some (.wrapExplicit fn ns (some cell)))
-      | none => pure none
-  | "rw" => do let r ← nat; pure (some (.rewrap r))
-  | "ca" => do let r ← nat; let e ← pDict; pure (some (.call r e))
+      | some cell => pure (some (.wrapExplicit fn ns (some cell)), some { fn := fn, names := ns, dflts := [], wrapped := none })
+      | none => pure (none, none)
+  | "rw" => do let r ← nat; pure (some (.rewrap r), none)
+  | "ca" => do let r ← nat; let e ← pDict; pure (some (.call r e), none)
   | "cv" => do
     let r ← nat; let e ← pDict
     let lens ← many (do let v ← int; let n ← nat; pure (v, n))
-    pure (some (.callVec r e lens))
-  | "pe" => do let r ← nat; let e ← pDict; pure (some (.partialEval r e))
-  | "sd" => do let r ← nat; let e ← pDict; pure (some (.setDefault r e))
-  | "rd" => do let r ← nat; let ks ← pNames; pure (some (.removeDefault r ks))
-  | "dc" => do let r ← nat; pure (some (.deepcopy r))
+    pure (some (.callVec r e lens), none)
+  | "pe" => do let r ← nat; let e ← pDict; pure (some (.partialEval r e), none)
+  | "sd" => do let r ← nat; let e ← pDict; pure (some (.setDefault r e), none)
+  | "rd" => do let r ← nat; let ks ← pNames; pure (some (.removeDefault r ks), none)
+  | "dc" => do let r ← nat; pure (some (.deepcopy r), none)
   | _ => throw s!"op:{t}"
 
 def insertSorted (kv : String × Val) : Dict → Dict
@@ -48,7 +60,7 @@ def showNames (l : List String) : String := "[" ++ ",".intercalate l ++ "]"
 
 def showErr : Err → String
   | .missingArg => "e:missing" | .keyError => "e:keyerror" | .indexError => "e:index" | .badRef => "e:badref"
-  | .valueError => "e:valueerror"
+  | .valueError => "e:valueerror" | .typeError => "e:typeerror"
 
 def showCanon (params : List String) (kw : Dict) : String :=
   ",".intercalate ((canon params kw).map fun pv =>
@@ -73,14 +85,25 @@ def showInvocation (params : List String) (args : List (String × Arg)) : String
     | some a => s!"{p}={showArg a}"
     | none => s!"{p}=?")
 
-def showOut (h : Heap) (op : Op) (ud : List Nat) : Out → String
+def showOut (h : Heap) (op : Op) (ud : List Nat) (fns : List (Nat × Callable)) : Out → String
   | .unit => "u"
   | .dict _ => s!"U{ud.length}"
   | .wrapper r => s!"w{r}"
   | .value fn kw =>
-    match (opRef op).bind (h.ws[·]?) with
-    | some u => s!"v{fn}/{kw.length}({showCanon u.params kw})"
-    | none => s!"v{fn}/{kw.length}(?)"
+    -- what the invoked callable observes: Python binds `**kw` against ITS signature (pyBind)
+    match fns.lookup fn with
+    | some c =>
+      match alignDefaults c.names c.dflts with
+      | some own0 =>
+        let own := dupdate own0 c.kwdflts
+        match pyBind c.params own kw with
+        | .ok bs => s!"v{fn}/{bs.length}(" ++ ",".intercalate (bs.map fun b => s!"{b.1}={b.2}") ++ ")"
+        | .error e => showErr e
+      | none => "e:index"
+    | none =>
+      match (opRef op).bind (h.ws[·]?) with
+      | some u => s!"v{fn}/{kw.length}({showCanon u.params kw})"
+      | none => s!"v{fn}/{kw.length}(?)"
   | .const fn => s!"k{fn}"
   | .batch fn rows =>
     match (opRef op).bind (h.ws[·]?) with
@@ -100,16 +123,17 @@ def digest (h : Heap) (ud : List Nat) : String :=
     (ud[j]?).bind fun c => (h.dicts[c]?).map fun d => s!"U{j}={showDict d}"
   "|".intercalate (ws ++ ds)
 
-partial def runOps (stp : Heap → Op → Heap × Out) : Nat → Heap → List Nat → List String → P (List String)
-  | 0, _, _, acc => pure acc.reverse
-  | n+1, h, ud, acc => do
+partial def runOps (stp : Heap → Op → Heap × Out) : Nat → Heap → List Nat → List (Nat × Callable) → List String → P (List String)
+  | 0, _, _, _, acc => pure acc.reverse
+  | n+1, h, ud, fns, acc => do
     match (← pOp ud) with
-    | none => pure (("e:badref # " ++ digest h ud) :: acc).reverse
-    | some op =>
+    | (none, _) => pure (("e:badref # " ++ digest h ud) :: acc).reverse
+    | (some op, c?) =>
+      let fns' := match c? with | some c => (c.fn, c) :: fns | none => fns
       let (h', o) := stp h op
       let ud' := match o with | .dict c => ud ++ [c] | _ => ud
-      let line := showOut h op ud o ++ " # " ++ digest h' ud'
-      runOps stp n h' ud' (line :: acc)
+      let line := showOut h op ud fns' o ++ " # " ++ digest h' ud'
+      runOps stp n h' ud' fns' (line :: acc)
 
 def step1 (line : String) : String :=
   let r : Except String String := (do
@@ -117,11 +141,11 @@ def step1 (line : String) : String :=
     match op with
     | "run" => do
       let n ← nat
-      let ls ← runOps step n Heap.empty [] []
+      let ls ← runOps step n Heap.empty [] [] []
       return " ; ".intercalate ls
     | "runold" => do
       let n ← nat
-      let ls ← runOps stepOld n Heap.initOld [] []
+      let ls ← runOps stepOld n Heap.initOld [] [] []
       return " ; ".intercalate ls
     | "align" => do
       let ns ← pNames; let ds ← many int
